@@ -728,6 +728,19 @@ func c06NilMaps(c *Ctx) {
 						return true, "the result of " + callee.Name() + ", every return of which hands back a map made there"
 					}
 				}
+				// maps.Clone of a package-level map that is initialised with a literal and that nothing assigns: not nil
+				if funcFullName(callee) == "maps.Clone" && len(y.Args) == 1 {
+					if id := identOf(y.Args[0]); id != nil && unparen(y.Args[0]) == ast.Expr(id) {
+						if pv, ok := info.Uses[id].(*types.Var); ok && pv.Pkg() != nil && pv.Parent() == pv.Pkg().Scope() {
+							ne := &nEval{w: w}
+							if init, _ := ne.pkgVarInit(pv); init != nil {
+								if _, isLit := unparen(init).(*ast.CompositeLit); isLit {
+									return true, "a clone of the package-level map " + pv.Name() + ", which is initialised with a literal and never assigned"
+								}
+							}
+						}
+					}
+				}
 				return false, "the result of " + funcFullName(callee) + ", which can be nil (maps.Clone hands nil back for a nil map)"
 			}
 		case *ast.CompositeLit:
